@@ -240,7 +240,7 @@ def judge_run(case, tol, stop):
     narrowed = dict(case, runs=[[tol, stop]])
 
     def bad(check, sig, **detail):
-        s = {'check': check, 'layout': multi}
+        s = {'check': check}
         s.update(sig)
         if not any(v['signature'] == s for v in V):
             detail.update(l1l2tol=tol, stop=stop, xmin=xmin, xmax=xmax, c=c, x0=x0, maxvol=maxvol)
@@ -255,6 +255,7 @@ def judge_run(case, tol, stop):
         tags.add('raised')
     nontrivial = False
     nupd = 0
+    bands = {}
     shapes_ok = True
     for k, d in enumerate(designs):
         nchecks += 1
@@ -277,7 +278,9 @@ def judge_run(case, tol, stop):
             break
         # 1. bounds, exact
         nchecks += 1
+        box_ok = True
         if np.any(xn < lo_full) or np.any(xn > hi_full):
+            box_ok = False
             side = 'below_xmin' if np.any(xn < lo_full) else 'above_xmax'
             exc_ = float(max(np.max(lo_full - xn), np.max(xn - hi_full)))
             bad('bounds', {'side': side, 'excess': 'rounding' if exc_ < 1e-12 else 'gross'}, excess=exc_, **where)
@@ -286,10 +289,18 @@ def judge_run(case, tol, stop):
         dx = float(np.max(np.abs(xn - xp)))
         slack = 1e-9 * max(1.0, float(np.max(np.abs(xp)))) + 1e-12
         if dx > case['move'] + slack:
-            bad('move', {'ratio': q(dx / case['move'], 2)}, dx=dx, move=case['move'], **where)
+            box_ok = False
+            r = dx / case['move']
+            bad('move', {'ratio': 'rounding' if r < 1 + 1e-6 else '(1,2]' if r <= 2 + 1e-6 else '>2'}, dx=dx,
+                move=case['move'], ratio=r, **where)
+        if not box_ok:
+            tags.add('outside_move_box')
+            continue          # the band below presupposes the move box; a design outside it is already reported
         # 3. volume and component band
-        g = oc.gradient(kind, c, xp)
-        band = oc.oc_band(xp, g, xmin, xmax, case['move'], vol, tol)
+        bkey = xp.tobytes()
+        if bkey not in bands:     # the reference is a pure function of the previous design: memoise repeated designs
+            bands[bkey] = oc.oc_band(xp, oc.gradient(kind, c, xp), xmin, xmax, case['move'], vol, tol)
+        band = bands[bkey]
         vn = float(np.sum(xn))
         sv = 1e-9 * max(1.0, float(np.sum(np.abs(xn))), abs(vol)) + 1e-12
         sx = 1e-9 * max(1.0, float(np.max(np.abs(xn)))) + 1e-12
@@ -310,10 +321,10 @@ def judge_run(case, tol, stop):
             side = 'too_large' if vn > band['v_hi'] else 'too_small'
             width = max(band['v_hi'] - band['v_lo'], sv)
             off = (vn - band['v_hi']) if vn > band['v_hi'] else (band['v_lo'] - vn)
-            bad('volume_band', {'side': side, 'excess_over_bandwidth': mag(off / width)},
+            bad('volume_band', {'side': side, 'layout': multi}, excess_over_bandwidth=off / width,
                 volume=vn, maxvol=vol, band=[band['v_lo'], band['v_hi']], lam=[band['lam_lo'], band['lam_hi']],
                 **where)
-        if not inband:
+        elif not inband:      # (a volume outside its band already implies a component outside its band)
             which = [i for i in range(len(sizes))
                      if np.any(xn[offs[i]:offs[i + 1]] < band['x_lo'][offs[i]:offs[i + 1]] - sx)
                      or np.any(xn[offs[i]:offs[i + 1]] > band['x_hi'][offs[i]:offs[i + 1]] + sx)]
@@ -327,7 +338,7 @@ def judge_run(case, tol, stop):
                     if np.all(xq >= band['x_lo'] - sx) and np.all(xq <= band['x_hi'] + sx):
                         cause = 'signals_permuted'
             err = float(max(np.max(band['x_lo'] - xn), np.max(xn - band['x_hi'])))
-            bad('update_band', {'cause': cause, 'err': mag(err) if err < 1e-3 else 'gross'},
+            bad('update_band', {'cause': cause, 'layout': multi},
                 signals_off=which, x_lo=band['x_lo'], x_hi=band['x_hi'], err=err,
                 lam=[band['lam_lo'], band['lam_hi']], **where)
 
@@ -354,7 +365,7 @@ def judge_run(case, tol, stop):
                 tags.add('converged' if okf and okx else 'not_converged')
                 if not (okf and okx):
                     gap = (fe_ - opt['f_opt']) / abs(opt['f_opt'])
-                    bad('converge', {'what': 'objective' if not okf else 'design', 'gap': mag(gap)},
+                    bad('converge', {'what': 'objective' if not okf else 'design'},
                         f_end=fe_, f_opt=opt['f_opt'], f_band=[opt['f_lo'], opt['f_hi']], x_end=xe,
                         x_opt=opt['x_opt'], iterations=nresp, rel_gap=gap)
     return {'iterations': len(flat), 'updates': nupd, 'checks': nchecks, 'tags': tags, 'nontrivial': nontrivial,
@@ -386,52 +397,65 @@ def execute(case):
 
 
 # --------------------------------------------------------------------------------------------------- enumeration
+RUNS_Q = [[1e-4, 'off'], [1e-8, 'off'], [1e-4, 'default']]
+RUNS_T = [[tol, stop] for tol in (1e-2, 1e-4, 1e-6, 1e-8) for stop in ('off', 'default')]
+MULTI = [k for k, v in LAYOUTS.items() if len(v[0]) > 1]
+
 Q_AXES = dict(
     layouts=['one1_bare', 'one2_list', 'one3_bare', 'one6_list', 'two_2+3', 'arr3+len1', 'len1+arr2'],
-    kinds=['inv', 'comp'],
-    cs=['asc', 'wide'],
+    kind_c=[['inv', 'asc'], ['inv', 'wide'], ['comp', 'asc']],
     starts=['u03', 'hi', 'mixed'],
     bounds=['default', 'scalar', 'vec'],
     moves=[0.05, 0.2, 1.0],
     maxvols=['none', 'f03', 'f06', 'over'],
-    tols=[1e-4, 1e-8],
-    stops=['off', 'default'],
+    runs=RUNS_Q,
 )
-T_AXES = dict(
-    layouts=list(LAYOUTS),
-    kinds=['inv', 'invsq', 'comp'],
-    cs=['asc', 'gen', 'equal', 'wide', 'zero'],
-    starts=['u03', 'u05', 'lo', 'hi', 'mixed', 'near_out'],
-    bounds=['default', 'scalar', 'vec', 'svec', 'vecs', 'pinned'],
-    moves=[0.05, 0.1, 0.2, 0.5, 1.0],
-    maxvols=['none', 'f03', 'f06', 'over', 'under', 'edge_hi', 'edge_lo'],
-    tols=[1e-2, 1e-4, 1e-6, 1e-8],
-    stops=['off', 'default'],
-)
+ALL_KIND_C = [[k, c] for k in ('inv', 'invsq', 'comp') for c in ('asc', 'gen', 'equal', 'wide', 'zero')]
+ALL_STARTS = ['u03', 'u05', 'lo', 'hi', 'mixed', 'near_out']
+ALL_BOUNDS = ['default', 'scalar', 'vec', 'svec', 'vecs', 'pinned']
+ALL_MAXVOLS = ['none', 'f03', 'f06', 'over', 'under', 'edge_hi', 'edge_lo']
+ALL_MOVES = [0.05, 0.1, 0.2, 0.5, 1.0]
+T_LEVELS = [
+    ('quick-lattice x all tolerances x both stoppings',
+     dict(Q_AXES, kind_c=[['inv', 'asc'], ['inv', 'wide'], ['comp', 'asc'], ['comp', 'wide']], runs=RUNS_T)),
+    ('all layouts x all objectives',
+     dict(Q_AXES, layouts=list(LAYOUTS), kind_c=[[k, c] for k in ('inv', 'invsq', 'comp') for c in ('asc', 'wide')])),
+    ('all starts x bounds x volume targets x c tables',
+     dict(Q_AXES, layouts=['one3_bare', 'one6_list', 'two_2+3', 'arr3+len1'],
+          kind_c=[['inv', c] for c in ('asc', 'gen', 'equal', 'wide', 'zero')] + [['comp', 'gen']],
+          starts=ALL_STARTS, bounds=ALL_BOUNDS, maxvols=ALL_MAXVOLS)),
+    ('all move limits x all objective/c tables',
+     dict(Q_AXES, layouts=['one2_list', 'one6_bare', 'two_3+3', 'three_1+2+3', 'len1+len1'], kind_c=ALL_KIND_C,
+          moves=ALL_MOVES, starts=['u05', 'lo', 'mixed'], bounds=['scalar', 'pinned'],
+          maxvols=['none', 'f06', 'under', 'edge_hi'])),
+]
 
 
 def bounds(tier, seed):
-    ax = Q_AXES if tier == 'quick' else T_AXES
-    b = {k: v for k, v in ax.items()}
-    b['value_table'] = seed % NTAB
-    b['maxit'] = '2*ceil(max(xmax-xmin)/move)+8 (all of them executed when stopping is off)'
-    b['wiring'] = 'module inputs in variable order; for multi-signal layouts also reversed'
+    b = {'value_table': seed % NTAB,
+         'maxit': 'ceil(max(xmax-xmin)/move)+10 (all of them executed when stopping is off)',
+         'wiring': 'module inputs in variable order; for multi-signal layouts also reversed',
+         'runs': '[l1l2tol, stopping] pairs executed for every lattice point'}
+    if tier == 'quick':
+        b['lattice'] = Q_AXES
+    else:
+        b['levels'] = [{'level': name, 'lattice': ax} for name, ax in T_LEVELS]
     return b
 
 
-def _cases(ax, t, levels=False):
+def _cases(ax, t):
     def simplicity(c):
         return (sum(LAYOUTS[c['layout']][0]), len(LAYOUTS[c['layout']][0]), c['rev'])
     out = []
-    for lay, kind, cn, st, bn, mv, mx in itertools.product(ax['layouts'], ax['kinds'], ax['cs'], ax['starts'],
-                                                            ax['bounds'], ax['moves'], ax['maxvols']):
+    for lay, (kind, cn), st, bn, mv, mx in itertools.product(ax['layouts'], ax['kind_c'], ax['starts'], ax['bounds'],
+                                                             ax['moves'], ax['maxvols']):
         sizes = LAYOUTS[lay][0]
         n = int(sum(sizes))
         xmin, xmax, _ = bounds_table(bn, t, n)
         for rev in ([0, 1] if len(sizes) > 1 else [0]):
             out.append({'layout': lay, 'rev': rev, 'kind': kind, 'c': cn, 'start': st, 'bounds': bn, 'move': mv,
-                        'maxvol': mx, 'table': t, 'maxit': horizon(mv, xmin, xmax, n), 'tols': list(ax['tols']),
-                        'stops': list(ax['stops'])})
+                        'maxvol': mx, 'table': t, 'maxit': horizon(mv, xmin, xmax, n),
+                        'runs': [list(r) for r in ax['runs']]})
     out.sort(key=simplicity)
     return out
 
@@ -441,22 +465,11 @@ def generate(tier, seed):
     if tier == 'quick':
         yield from _cases(Q_AXES, t)
         return
-    # thorough: the quick lattice first, then one axis group at a time at full width, then the full product
     seen = set()
-
-    def emit(cases):
-        for c in cases:
-            k = repr(sorted(c.items()))
+    for name, ax in T_LEVELS:
+        yield {'__level__': name}
+        for c in _cases(ax, t):
+            k = repr(sorted((a, repr(b)) for a, b in c.items()))
             if k not in seen:
                 seen.add(k)
                 yield c
-
-    yield {'__level__': 'quick-lattice/all-tolerances'}
-    yield from emit(_cases(dict(Q_AXES, tols=T_AXES['tols']), t))
-    yield {'__level__': 'all-layouts+all-objectives'}
-    yield from emit(_cases(dict(Q_AXES, layouts=T_AXES['layouts'], kinds=T_AXES['kinds'], tols=T_AXES['tols']), t))
-    yield {'__level__': 'all-starts+bounds+maxvols'}
-    yield from emit(_cases(dict(Q_AXES, starts=T_AXES['starts'], bounds=T_AXES['bounds'], maxvols=T_AXES['maxvols'],
-                                cs=T_AXES['cs'], tols=T_AXES['tols']), t))
-    yield {'__level__': 'full-product'}
-    yield from emit(_cases(T_AXES, t))
